@@ -2,7 +2,7 @@
 # like verify_seed.sh but runs only what the baseline runs (unit/integration tests, no doc tests) - faster on a loaded machine
 set -u
 VERIF=$(cd "$(dirname "$0")/.." && pwd)
-export CARGO_NET_OFFLINE=true CARGO_BUILD_JOBS=${CARGO_BUILD_JOBS:-8} CARGO_TARGET_DIR=/tmp/vs/target2
+export CARGO_NET_OFFLINE=true CARGO_BUILD_JOBS=${CARGO_BUILD_JOBS:-8} CARGO_TARGET_DIR=${VS_TARGET:-/tmp/vs/target2}
 mkdir -p /tmp/vs
 for name in "$@"; do
   S=$VERIF/seeded/$name
